@@ -5,7 +5,9 @@
    parameter of known dimension) has the stated degrees -- except the ids listed in excl.
    `exclusions` is the hand-written table of the ids that are NOT homogeneous on the current tree
    (absolute tolerances against lengths); a NEW non-homogeneous comparison is not in the table and
-   breaks `all_functions_ok`. *)
+   breaks `all_functions_ok`.  The table is TIGHT (`exclusions_tight`): an id that no longer fails must be
+   removed, so a repaired site (triangle_Bfield `ind > 1e-12*l`, f10bc6f; mask_inside_enclosing_box relative
+   eps, ac0d0ea) is proved from then on and re-introducing an absolute tolerance there breaks the proof. *)
 From Coq Require Import Reals ZArith String List Bool Lia Lra.
 From MV Require Import Lib.Dim Gen.GenTol.
 Import ListNotations.
@@ -43,23 +45,10 @@ Definition failing : list string := flat_map failing_fn functions.
    computed behind such a decision, or the un-modelled cylinder-segment core; each one points to a
    finding of known_findings/C12.json or to the `not modelled` list of harness/props/C12.meta.json *)
 Definition exclusions : list string := [
-  (* triangle_Bfield: `ind > 1e-12`, ind = |r + b/l| is a length; the field value is selected by it *)
-  "triangle>BHJM_triangle>triangle_Bfield(observers=observers, vertices=vertices, polarizations=polarization)>ind > 1e-12";
-  "triangle>BHJM_triangle[field=B]>return.0"; "triangle>BHJM_triangle[field=B]>return.1";
-  "triangle>BHJM_triangle[field=B]>return.2";
-  "triangle>BHJM_triangle[field=H]>return.0"; "triangle>BHJM_triangle[field=H]>return.1";
-  "triangle>BHJM_triangle[field=H]>return.2";
   (* is_facet_inwards: check point = centroid + unit normal * 1e-5 *)
   "trimesh_facet_inwards>is_facet_inwards>mask_inside_trimesh(np.array([check_point]), faces)>arg:points.0";
   "trimesh_facet_inwards>is_facet_inwards>mask_inside_trimesh(np.array([check_point]), faces)>arg:points.1";
   "trimesh_facet_inwards>is_facet_inwards>mask_inside_trimesh(np.array([check_point]), faces)>arg:points.2";
-  (* mask_inside_enclosing_box: eps = 1e-12 added to the box bounds *)
-  "trimesh_inside>mask_inside_trimesh>mask_inside_enclosing_box(points, vertices)>x < xmax + eps";
-  "trimesh_inside>mask_inside_trimesh>mask_inside_enclosing_box(points, vertices)>x > xmin - eps";
-  "trimesh_inside>mask_inside_trimesh>mask_inside_enclosing_box(points, vertices)>y < ymax + eps";
-  "trimesh_inside>mask_inside_trimesh>mask_inside_enclosing_box(points, vertices)>y > ymin - eps";
-  "trimesh_inside>mask_inside_trimesh>mask_inside_enclosing_box(points, vertices)>z < zmax + eps";
-  "trimesh_inside>mask_inside_trimesh>mask_inside_enclosing_box(points, vertices)>z > zmin - eps";
   (* mask_inside_trimesh: ray start = min(vertices) - (12.0012345, 5.9923456, 6.9932109) *)
   "trimesh_inside>mask_inside_trimesh>lines_end_in_trimesh(test_lines, faces)>arg:lines.0";
   "trimesh_inside>mask_inside_trimesh>lines_end_in_trimesh(test_lines, faces)>arg:lines.1";
@@ -107,6 +96,14 @@ Proof. vm_compute. reflexivity. Qed.
 
 Lemma failing_excluded : forallb (fun id => mem id exclusions) failing_now = true.
 Proof. vm_compute. reflexivity. Qed.
+
+(* tightness: every excluded id really fails the dimension check on the current tree *)
+Lemma exclusions_fail : forallb (fun id => mem id failing_now) exclusions = true.
+Proof. vm_compute. reflexivity. Qed.
+
+Lemma exclusions_tight :
+  forallb (fun id => mem id exclusions) failing = true /\ forallb (fun id => mem id failing) exclusions = true.
+Proof. rewrite failing_now_eq. split; [exact failing_excluded | exact exclusions_fail]. Qed.
 
 (* ------------------------------------------------------------------ failing -> check *)
 Lemma filter_map_mem {A} (g : A -> string) (p : A -> bool) (excl : list string) (l : list A) :
@@ -210,7 +207,7 @@ Qed.
    (half units: -6 = length^-3, -2 = length^-1, 0 = unit independent; 2 = proportional to the excitation) *)
 Definition proved_return_degrees : list (string * (Z * Z)) :=
   [("dipole", (-6, 2)%Z); ("sphere", (0, 2)%Z); ("cuboid", (0, 2)%Z); ("cylinder", (0, 2)%Z);
-   ("circle", (-2, 2)%Z); ("polyline", (-2, 2)%Z); ("tetrahedron", (0, 2)%Z)].
+   ("circle", (-2, 2)%Z); ("polyline", (-2, 2)%Z); ("triangle", (0, 2)%Z); ("tetrahedron", (0, 2)%Z)].
 
 Definition zz_eqb (a b : Z * Z) : bool := (fst a =? fst b)%Z && (snd a =? snd b)%Z.
 
